@@ -81,8 +81,10 @@ pub fn generate(run_seed: u64) -> QueueSpec {
     if structured {
         // p producers push a total of <= 48 items (each fits: size <= cap), c consumers drain,
         // main joins the producers, closes, joins the consumers.
-        let p = c.range(1, 4) as u32;
-        let cn = c.range(1, 6) as u32;
+        // mostly small; a tenth of the runs uses up to 8 producers and 8 consumers (16 threads)
+        let big = c.pct(10);
+        let p = c.range(1, if big { 8 } else { 4 }) as u32;
+        let cn = c.range(1, if big { 8 } else { 6 }) as u32;
         let total = w.range(1, 48) as u32;
         let mut prod: Vec<Vec<Op>> = (0..p).map(|_| Vec::new()).collect();
         for _ in 0..total {
